@@ -21,22 +21,31 @@ theorem solveT_offset_oob (h0 : ¬ o.minIter > o.maxIter) (h1 : o.offset ≠ 0)
     (h2 : normT n t + o.offset < 0 ∨ normT n t + o.offset ≥ n) :
     solveT I o n t w = (w, .indexError) := by
   unfold solveT
-  rcases h2 with h2 | h2
-  · simp [h0, h1, h2]
-  · by_cases h3 : normT n t + o.offset < 0 <;> simp [h0, h1, h2, h3]
+  by_cases hf : normT n t - ↑I.lags < 0 ∨ normT n t + ↑I.leads ≥ ↑n
+  · simp [h0, hf]
+  · rcases h2 with h2 | h2
+    · simp [h0, hf, h1, h2]
+    · by_cases h3 : normT n t + o.offset < 0 <;> simp [h0, hf, h1, h2, h3]
+
+/-- A period that cannot accommodate the model's lags or leads is rejected with IndexError, nothing changes. -/
+theorem solveT_infeasible (h0 : ¬ o.minIter > o.maxIter) (hf : ¬ Feasible I n t) :
+    solveT I o n t w = (w, .indexError) := by
+  have hf' : normT n t - ↑I.lags < 0 ∨ normT n t + ↑I.leads ≥ ↑n := by
+    unfold Feasible at hf; omega
+  simp [solveT, h0, hf']
 
 /-- Otherwise the solve proceeds from the state with the endogenous values of `t + offset` copied into `t`
     (and from the unchanged state when `offset = 0`). -/
-theorem solveT_offset_copy (h0 : ¬ o.minIter > o.maxIter) (h1 : o.offset ≠ 0)
+theorem solveT_offset_copy (h0 : ¬ o.minIter > o.maxIter) (hf : Feasible I n t) (h1 : o.offset ≠ 0)
     (h2 : 0 ≤ normT n t + o.offset) (h3 : normT n t + o.offset < n) :
     solveT I o n t w = solveCore I o n t w (I.copyOffset w.user t o.offset) := by
-  have h2' : ¬ normT n t + o.offset < 0 := by omega
-  have h3' : ¬ normT n t + o.offset ≥ n := by omega
-  simp [solveT, h0, h1, h2', h3', seed]
+  rw [solveT_accepted I o n t w ⟨h0, hf, Or.inr ⟨h2, h3⟩⟩]
+  simp [seed, h1]
 
-theorem solveT_offset_zero (h0 : ¬ o.minIter > o.maxIter) (h1 : o.offset = 0) :
+theorem solveT_offset_zero (h0 : ¬ o.minIter > o.maxIter) (hf : Feasible I n t) (h1 : o.offset = 0) :
     solveT I o n t w = solveCore I o n t w w.user := by
-  simp [solveT, h0, h1, seed]
+  rw [solveT_accepted I o n t w ⟨h0, hf, Or.inl h1⟩]
+  simp [seed, h1]
 
 /-- The code indexes the source period with the un-normalised sum `t + offset`; whenever the range test
     passes, Python's index normalisation sends that to position `t_check + offset`. -/
@@ -57,22 +66,10 @@ theorem pyIndex_offset (off : Int) (_ht : -(n : Int) ≤ t) (_ht' : t < n)
 /-! The loop proper.  `u1` is the state after the offset copy, `u0` the state the pre-hook leaves,
     `v0` the check vector read *before* the pre-hook (as the code does). -/
 
-/-- Accepted call whose offset test passes (or `offset = 0`). -/
-def Accepted : Prop :=
-  ¬ o.minIter > o.maxIter ∧ (o.offset = 0 ∨ (0 ≤ normT n t + o.offset ∧ normT n t + o.offset < n))
-
-theorem solveT_accepted (h : Accepted o n t) :
-    solveT I o n t w = solveCore I o n t w (seed I o t w.user) := by
-  obtain ⟨h0, h1 | ⟨h2, h3⟩⟩ := h
-  · simp [solveT, h0, h1]
-  · have h2' : ¬ normT n t + o.offset < 0 := by omega
-    have h3' : ¬ normT n t + o.offset ≥ n := by omega
-    simp [solveT, h0, h2', h3']
-
 /-- **Convergence.**  If check values stay finite and nothing raises, and `k0` is the first pass with
     `max(1, min_iter) ≤ k0 ≤ max_iter` at which every check variable is `close` to its previous value, then
     `solve_t` runs the post-hook after pass `k0`, records status '.', `iterations[t] = k0`, returns `True`. -/
-theorem solveT_converges (hacc : Accepted o n t)
+theorem solveT_converges (hacc : Accepted I o n t)
     (hb : (I.before o (seed I o t w.user) t).2 = false)
     (k0 : Nat) (h1 : 1 ≤ k0) (hk : (k0 : Int) ≤ o.maxIter)
     (hev : ∀ i, i < k0 →
@@ -111,7 +108,7 @@ theorem solveT_converges (hacc : Accepted o n t)
     `max(1, min_iter) ≤ k ≤ max_iter` is accepted, then all `max_iter` passes run, the post-hook is not run,
     status 'F' and `iterations[t] = max_iter` are recorded, and the call returns `False` — or raises
     NonConvergenceError exactly when `failures='raise'`. -/
-theorem solveT_fails (hacc : Accepted o n t)
+theorem solveT_fails (hacc : Accepted I o n t)
     (hb : (I.before o (seed I o t w.user) t).2 = false)
     (hev : ∀ i, i < o.maxIter.toNat →
       (I.eval o (traj I o t (I.before o (seed I o t w.user) t).1 i) t (i + 1)).2 = false)
@@ -155,7 +152,7 @@ theorem good_iff (u0 : σ) (v0 : V) (k : Nat) (hk : 1 ≤ k) :
 
 /-- On the converging path the calls made are: pre-hook, passes 1…k0, post-hook — nothing else. -/
 theorem converging_calls (l : List Event) (u : σ) (st : List Status) (it : List Int)
-    (hacc : Accepted o n t)
+    (hacc : Accepted I o n t)
     (hb : (I.before o (seed I o t u) t).2 = false)
     (k0 : Nat) (h1 : 1 ≤ k0) (hk : (k0 : Int) ≤ o.maxIter)
     (hev : ∀ i, i < k0 → (I.eval o (traj I o t (I.before o (seed I o t u) t).1 i) t (i + 1)).2 = false)
@@ -186,7 +183,7 @@ theorem converging_calls (l : List Event) (u : σ) (st : List Status) (it : List
 
 /-- On the failing path: pre-hook, passes 1…max_iter, and no post-hook. -/
 theorem failing_calls (l : List Event) (u : σ) (st : List Status) (it : List Int)
-    (hacc : Accepted o n t)
+    (hacc : Accepted I o n t)
     (hb : (I.before o (seed I o t u) t).2 = false)
     (hev : ∀ i, i < o.maxIter.toNat →
       (I.eval o (traj I o t (I.before o (seed I o t u) t).1 i) t (i + 1)).2 = false)
@@ -233,6 +230,8 @@ theorem solvePeriod_keyError (l : Loc) (h : ∀ i, l ≠ .pos i) : solvePeriod I
 `σ = V = Nat`; a pass moves the state one step towards 3; two vectors are close when equal. -/
 
 def exI : Interp Nat Nat where
+  lags := 0
+  leads := 0
   check u _ := u
   allFinite _ := true
   close a b := a == b
